@@ -206,7 +206,7 @@ HARNESSES = [
             bounds='4 (5) cells on two-level trees: every split of the '
                    'cells between the parents, including non-contiguous '
                    'row sets with gaps',
-            expect_reach=['mapped'], split=48),
+            expect_reach=['mapped'], split=200),
     Harness('relational_level_loop', h_relational, setup=LL.setup,
             cases=[{'sizes': s} for s in ([2], [3], [1, 2], [2, 2])],
             thorough_cases=[{'sizes': s} for s in
